@@ -31,6 +31,7 @@ from tqdm import tqdm
 from tqdm.utils import CallbackIOWrapper
 
 from . import exceptions, utils
+from . import _verif
 from .backends.base import DEFAULT_STREAM_CHUNK_SIZE
 from .utils import FileListColumn, SnapshotListColumn, adapters
 from .utils.compat import Random
@@ -1153,6 +1154,7 @@ class Repository:
             bytes_tracker.update(chunk.stream_end - chunk.stream_start)
 
         def _stream_files(chunk_size=16_777_216):
+            chunk_size = _verif.override('snapshot.piece_size', chunk_size)
             for path in files:
                 if (prev_file := state.current_file) is not None:
                     # Produce padding for the previous file
